@@ -42,6 +42,17 @@ CHECKS = {
         technique="Coq proof (monotonicity and sub-additivity of the covered count; transported through the C01 refinement) + oracle-free consistency pass",
         text="Theorems c07_total_ge_group/total_le_sum/order_le_sum_supers/super_le_order; every cell of every generated output checked for the four relations on reconstructed counts, plus model correspondence.",
         design="DESIGN.md 6 C07"),
+    "C11": dict(
+        technique="Coq proof (invariant of a labelled transition system, induction over schedules, any k) + deterministic-scheduler replay on the real class",
+        text="Theorems c11_all_collected/never_more/terminates for every number of results and every interleaving; legacy loop refuted (c11_legacy_refuted). "
+             "Schedules enumerated from the model are replayed on the real _ProgressBars (instrumented queue/event, no hook) and compared with the model; CLI runs with many chromosomes count result files. "
+             "Modelled: atomic steps = flag test, pop(+append), put, set; the GIL / Manager proxies / pool teardown are not modelled.",
+        design="DESIGN.md 6 C11"),
+    "C20": dict(
+        technique="Coq proof (invariant accepted ++ pending = map exec taken over all answer scripts) + scripted execution of the real run() loop",
+        text="Theorems c20_no_loss_no_dup_in_order/sentinel_complete/exit_causes for every script of queue-full / queue-empty / stop answers; legacy refuted. "
+             "Well-typed scripts exhaustively to length 10 (13 thorough) and random ill-typed scripts to length 40 executed on the real WorkerProcess.run() with stub queues and compared with the model.",
+        design="DESIGN.md 6 C20"),
 }
 
 PENDING = {}
